@@ -1751,7 +1751,9 @@ def oracle(case, impl, model):
             for f, mf in zip(v["fields"], mv["fields"]):
                 m = mf["meaning"]
                 if not mf["supported"] and mf.get("flat"):
-                    m = mf["flat"]       # directly nested Union / Optional: the flattened meaning (C13.elabField_flatten)
+                    m = mf["flat"]       # directly nested Union / Optional / |: the flattened meaning (C13.elabField_meaningX)
+                    if "err" in m:
+                        continue
                 elif not mf["supported"] or "err" in m or "dropped" in m:
                     continue
                 ffeats = features(v, f, mf["annLen"])
